@@ -14,9 +14,12 @@ def main():
     for cfg in ("plain17", "shim17", "shim20", "plain20"):
         vlib.build_lib(cfg)
     for i in ids:
-        p = subprocess.run([os.path.join(vlib.VERIF, "tools", "check"), i, "--tier", "quick"], cwd=vlib.VERIF,
-                           stdout=subprocess.PIPE, stderr=subprocess.STDOUT, text=True, timeout=3000)
-        print("setup: warmed %s rc=%d" % (i, p.returncode))
+        try:
+            p = subprocess.run([os.path.join(vlib.VERIF, "tools", "check"), i, "--tier", "quick"], cwd=vlib.VERIF,
+                               stdout=subprocess.PIPE, stderr=subprocess.STDOUT, text=True, timeout=3000)
+            print("setup: warmed %s rc=%d" % (i, p.returncode), flush=True)
+        except subprocess.TimeoutExpired:      # warming only: a slow machine must not fail the setup
+            print("setup: warming %s took too long, skipped" % i, flush=True)
     print("setup ok")
     return 0
 
